@@ -30,6 +30,9 @@ func runC13(c *mon.Ctx) {
 		if i%25 == 0 {
 			c13Backlog(c, r.Fork(5))
 		}
+		if i%40 == 0 {
+			c13BucketIDs(c, r.Fork(6), c.Batch+i/40)
+		}
 	})
 }
 
@@ -804,4 +807,79 @@ func c13Scope(c *mon.Ctx, r *mon.Rand) {
 	if c.WantSample() {
 		c.Sample(map[string]interface{}{"config": desc, "datagrams": len(msgs)})
 	}
+}
+
+// c13BucketIDs: bucket ids increase with the bounds - as numbers and, since
+// they travel as tag strings that backends sort and range over, as strings of
+// one width - for histograms whose number of buckets sits on a power of ten.
+func c13BucketIDs(c *mon.Ctx, r *mon.Rand, which int) {
+	proto := m3.Compact
+	if r.Bool() {
+		proto = m3.Binary
+	}
+	n := []int{10000, 9, 10, 11, 99, 100, 101, 999, 1000, 1001, 9999, 10001}[which%12] // the batches of a run walk through the list
+	env, err := newM3Env(1, m3.Options{Service: "svc", Env: "test", Protocol: proto, MaxQueueSize: 4096}, nil)
+	if err != nil {
+		c.Inconclusive("NewReporter: " + err.Error())
+		return
+	}
+	c.Eval(1)
+	desc := map[string]interface{}{"scenario": "bucket ids of a histogram with many bounds", "bounds": n, "protocol": protoName(proto)}
+	stopWatch := c.Watchdog(300*time.Second, "m3-call-or-close-does-not-return", desc)
+	defer stopWatch()
+	spec := make([]float64, n)
+	for i := range spec {
+		spec[i] = float64(i + 1)
+	}
+	idxs := []int{0, 1, 2, n / 2, n - 2, n - 1, n} // n+1 buckets: 0..n
+	c.Guard("panic-m3-producer", func() interface{} { return desc }, func() {
+		h := env.Rep.AllocateHistogram("many", map[string]string{"k": "v"}, tally.ValueBuckets(spec))
+		pairs := mon.RefPairsV(spec)
+		for _, i := range idxs {
+			h.ValueBucket(pairs[i].Lo, pairs[i].Hi).ReportSamples(int64(i + 1)) // the count names the bucket
+		}
+	})
+	closeErr := env.Rep.Close()
+	complete, why := env.finish()
+	if closeErr != nil {
+		c.Violation("close-error", map[string]interface{}{"why": closeErr.Error(), "case": desc})
+	}
+	if !complete {
+		c.Inconclusive(why)
+		return
+	}
+	msgs, _ := decodeAll(proto, env.Sinks[0].Datagrams())
+	ids := map[int]string{}
+	for _, m := range msgs {
+		for _, met := range m.Batch.Metrics {
+			if met.Name != "many" {
+				continue
+			}
+			for _, t := range met.Tags {
+				if t.Name == "bucketid" {
+					ids[int(met.Value.Count)-1] = t.Value
+				}
+			}
+		}
+	}
+	prev := -1
+	for _, i := range idxs {
+		id, ok := ids[i]
+		if !ok {
+			c.Violation("not-exactly-once", map[string]interface{}{"why": fmt.Sprintf("the sample reported on bucket %d never arrived", i), "case": desc})
+			return
+		}
+		if prev >= 0 && i != prev {
+			pid := ids[prev]
+			a, _ := strconv.ParseInt(pid, 10, 64)
+			b, _ := strconv.ParseInt(id, 10, 64)
+			if b <= a || len(id) != len(pid) || !(id > pid) {
+				c.Violation("bucket-ids-not-increasing", map[string]interface{}{"why": fmt.Sprintf("histogram with %d bounds: bucket %d has id %q, bucket %d has id %q (ids increase with the bounds, as numbers and as tag strings of one width)", n, prev, pid, i, id), "case": desc})
+				return
+			}
+		}
+		prev = i
+	}
+	c.Event("large-histograms-checked", 1)
+	c.Distinct(mon.Hash64("bucket-ids", fmt.Sprint(n, proto)))
 }
